@@ -246,6 +246,7 @@ def composition_jobs(leaf_contracts):
              '__CPROVER_requires(__CPROVER_same_object($2, g_lo) && __CPROVER_POINTER_OFFSET($2) == 0 && g_cap_bytes == 65536 && g_cnt >= 0 && g_cnt < 900 && (G_M >> 17) == 0)\n'
              '__CPROVER_requires(G_F3 == %s && G_F1 == alg_castle_sq_a(%d, %s) && G_F2 == alg_castle_sq_b(%d, %s))\n' % (GT, side, GC, side, GC) +
              '__CPROVER_requires(%s)\n' % PINOK +
+             '__CPROVER_requires((G_AG.checkers & ~$1->_by_color_bb[%d]) == 0)\n' % (1 - side) +
              '__CPROVER_requires(G_AG.checkers == 0 || LINES[%s][alg_lsb(G_AG.checkers)] == G_AG.seg)\n' % KSQ +
              '__CPROVER_assigns(g_cnt, __CPROVER_object_whole(PINS))\n'
              '__CPROVER_ensures(g_cnt == __CPROVER_old(g_cnt) + spec_alg_core_pos($1, %d, G_M))\n' % side)
@@ -259,7 +260,7 @@ def composition_jobs(leaf_contracts):
                                    '__CPROVER_loop_invariant(g_cnt == __CPROVER_loop_entry(g_cnt) + (((((__CPROVER_loop_entry(%s) & ~%s) >> %s) & 1) && %s && (((G_AG.att[%d] & target) >> %s) & 1)) ? 1 : 0))' % (var, var, GF, PLAIN, k, GT),
                                    '__CPROVER_decreases(%s)' % var]
         for ci, cname in enumerate(CCLASS):
-            h = ND + ('AlgGhost nondet_AlgGhost(void);\n' + ALGPOS +
+            h = ND + ('#include <stdlib.h>\nAlgGhost nondet_AlgGhost(void);\n' + ALGPOS +
                       'void h_gl(void) {\n'
                       '  verif_restore_statics();\n'
                       '  CASTLING_PATHS[1] = 0x60ULL; CASTLING_PATHS[2] = 0x0CULL; CASTLING_PATHS[4] = 0x6000000000000000ULL; CASTLING_PATHS[8] = 0x0C00000000000000ULL;   /* C11: geom/rays_masks */\n'
@@ -286,6 +287,7 @@ def composition_jobs(leaf_contracts):
               '  __CPROVER_assert(A.kind[1] == B.kind[1] && A.kind[2] == B.kind[2] && A.kind[3] == B.kind[3] && A.kind[4] == B.kind[4] && A.kind[5] == B.kind[5] && A.kind[6] == B.kind[6], "sets read off the bitboards == sets of the mailbox board (kinds)");\n'
               '  AlgGhost T = spec_alg_true_ghost(A, m);\n'
               '  for (int r = 0; r < 8; r++) __CPROVER_assert(T.pin[r] == 64 || (T.pin[r] < 64 && T.pin[r] != A.k && ((A.own >> T.pin[r]) & 1)), "true pinned square: none, or an own piece other than the king");\n'
+              '  __CPROVER_assert((T.checkers & ~A.enemy) == 0, "true checkers are enemy pieces");\n'
               '  __CPROVER_assert(A.k < 64, "the king square read from the piece list is on the board");' + CANARY + '}\n')
     out.append(Job('compose/assembly', MTUS, ['checkers_0'], h, 'h_as', spec=['poswf_decl.h', 'pos.h', 'movegen.h'], post_spec=['poswf.h'], timeout=1800,
                    note='assembly lemma: bitboard sets == mailbox sets for well-formed positions; the true geometric values satisfy the typing facts the composition assumes of its ghosts'))
